@@ -295,7 +295,7 @@ int main(int argc, char** argv) {
       }
       std::vector<geodlat::Pt> pts;
       for (double la : {-50.0, 10.0, 65.0}) for (double lo : {-170.0, -60.0, 20.0, 130.0}) pts.push_back({la, lo});
-      if (!T) { std::vector<geodlat::Pt> w; for (size_t i = 0; i < pts.size(); ++i) if (i % 4 != 3 || i == 3) w.push_back(pts[i]); pts = w; pts.resize(8); }
+      if (!T) pts.resize(8);
       const size_t n = pts.size();
       std::vector<double> Sl(n * n, 0); std::vector<ld> So(n * n, 0), xyz(3 * n);
       for (size_t i = 0; i < n; ++i) { ld N[3], Ev[3]; E.e.frame(pts[i].lat, pts[i].lon, &xyz[3 * i], N, Ev); }
